@@ -568,8 +568,11 @@ pub trait Allocator<VM: VMBinding>: Downcast {
                 trace!("fail with oom={}", fail_with_oom);
                 if fail_with_oom {
                     // Note that we throw a `HeapOutOfMemory` error here and return a null ptr back to the VM
+                    // (unless the allocation options forbid calling the binding's `out_of_memory`).
                     trace!("Throw HeapOutOfMemory!");
-                    self.out_of_memory(tls);
+                    if self.get_context().get_alloc_options().allow_oom_call {
+                        self.out_of_memory(tls);
+                    }
                     reset_allocation_state(self);
                     self.get_context()
                         .state
